@@ -23,7 +23,17 @@ package main
 // [N]byte, time.Time, time.Duration, slices, arrays, maps keyed by string/int/uint/float (no NaN),
 // pointers (also nested), structs (0..130 fields, embedded structs, tags: name, omitzero, omitempty,
 // string, case:, format:, "-"), and canonical untyped values in `any` (nil, bool, float64, string,
-// []any, map[string]any).  Nesting depth <= 5.
+// []any, map[string]any), jsontext.Value holding any valid JSON value ("raw"), and one `embed` fallback
+// field per struct (map[string]T or jsontext.Value holding an object).  Nesting depth <= 5.
+//
+// Object-name plans ("long names").  Every JSON object whose member names come from DATA (maps of every key
+// kind, embed fallback maps, raw objects, map[string]any inside `any`) draws its names from a pool that is
+// fixed per (generated type, Go map type): either ordinary random keys, or FEW names (3..64) whose total
+// length straddles 1 KiB, or MANY (65..140) short names — the two thresholds at which the coder's
+// duplicate-name namespace changes representation.  A container is filled with the whole pool, with a few
+// names of it, or with fresh keys, so that sibling objects (slice/array/map elements, consecutive struct
+// fields of the same type) and consecutive values of one type (consecutive Marshal/Unmarshal calls of one
+// worker, i.e. the pooled coder) repeat names of an earlier, larger object at the same nesting depth.
 //
 // Excluded BY CONSTRUCTION, each because the library documents it as not round-trippable or as a
 // Marshal error (so it is outside the quantifier of C04):
@@ -39,6 +49,7 @@ package main
 //   - time.Duration without a format unless GenFeatures.BareDuration (no default representation).
 
 import (
+	"bytes"
 	"fmt"
 	"math"
 	"math/rand/v2"
@@ -48,6 +59,9 @@ import (
 	"strings"
 	"time"
 	"unicode/utf8"
+
+	json "github.com/go-json-experiment/json"
+	"github.com/go-json-experiment/json/jsontext"
 )
 
 // GenFeatures says what the option set under test supports, so that most generated types marshal.
@@ -55,6 +69,9 @@ type GenFeatures struct {
 	FormatTags     bool // `format:` tags may be used (caller passes json.ExperimentalSupportFormatTag(true))
 	BareDuration   bool // time.Duration without a format tag has a representation (v1 FormatDurationAsNano)
 	LegacyString   bool // `string` may sit on any kind (v1 StringifyWithLegacySemantics + ReportErrorsWithLegacySemantics)
+	// NoStringOnNestedPtr: under StringifyWithLegacySemantics WITHOUT ReportErrorsWithLegacySemantics the library
+	// documents that `string` "does not apply to nested pointers" and reports an error for **T: do not generate it.
+	NoStringOnNestedPtr bool
 	MultiEntryMaps bool // maps may get more than one entry (caller is Deterministic or compares modulo member order)
 	NoOmit         bool // never emit omitzero/omitempty (caller wants value equality to be meaningful)
 	MaxDepth       int  // default 5
@@ -75,6 +92,11 @@ type TNode struct {
 	Stringified bool
 	// LegacyQuoted: a Go string under `string` with v1 semantics (the JSON string holds the quoted JSON string).
 	LegacyQuoted bool
+	// KeyPrefix: every string key of this map / member name of this raw object starts with it (embed fallbacks use
+	// "k:" so that no key equals, or case-folds to, a declared field name).
+	KeyPrefix string
+	// RawObject: a jsontext.Value that must hold a JSON object (embed fallback).
+	RawObject bool
 }
 
 // TField is one struct field of a generated struct.
@@ -90,6 +112,7 @@ type TField struct {
 	Case      string // "", "ignore", "strict"
 	Embedded  bool
 	Ignored   bool // `json:"-"`
+	Fallback  bool // `json:",embed"` on a map[string]T / jsontext.Value: receives every member that is not a declared field
 	Shadowed  bool // an embedded field whose name collides with a shallower one (dropped by the library): not compared
 }
 
@@ -103,6 +126,7 @@ type GenT struct {
 	HasAny  bool
 	feats   map[string]bool
 	f       GenFeatures
+	pools   map[string]*namePool // object-name plans, per Go map type (or "raw"/"any")
 }
 
 func (g *GenT) Feats() []string {
@@ -121,7 +145,7 @@ var (
 )
 
 var scalarKinds = []string{"bool", "int", "int8", "int16", "int32", "int64", "uint", "uint8", "uint16", "uint32", "uint64", "uintptr",
-	"float32", "float64", "string", "bytes", "bytearray", "time", "duration", "any"}
+	"float32", "float64", "string", "bytes", "bytearray", "time", "duration", "any", "raw"}
 var compositeKinds = []string{"slice", "array", "map", "ptr", "struct"}
 
 var basicTypes = map[string]reflect.Type{
@@ -129,7 +153,7 @@ var basicTypes = map[string]reflect.Type{
 	"int32": reflect.TypeFor[int32](), "int64": reflect.TypeFor[int64](), "uint": reflect.TypeFor[uint](), "uint8": reflect.TypeFor[uint8](),
 	"uint16": reflect.TypeFor[uint16](), "uint32": reflect.TypeFor[uint32](), "uint64": reflect.TypeFor[uint64](), "uintptr": reflect.TypeFor[uintptr](),
 	"float32": reflect.TypeFor[float32](), "float64": reflect.TypeFor[float64](), "string": reflect.TypeFor[string](),
-	"bytes": reflect.TypeFor[[]byte](), "time": timeType, "duration": durType, "any": anyRType,
+	"bytes": reflect.TypeFor[[]byte](), "time": timeType, "duration": durType, "any": anyRType, "raw": reflect.TypeFor[jsontext.Value](),
 }
 
 // Formats by kind.  The time layouts are split by what they preserve.
@@ -159,7 +183,7 @@ func GenValType(r *rand.Rand, f GenFeatures) (g *GenT) {
 	if f.MaxFields == 0 {
 		f.MaxFields = 130
 	}
-	g = &GenT{feats: map[string]bool{}, f: f}
+	g = &GenT{feats: map[string]bool{}, f: f, pools: map[string]*namePool{}}
 	defer func() {
 		if p := recover(); p != nil {
 			if _, ok := p.(machineryFailure); ok {
@@ -237,8 +261,8 @@ func (g *GenT) genLeaf(r *rand.Rand, durOK bool) *TNode {
 			}
 			n.T = reflect.ArrayOf(n.Len, basicTypes["uint8"])
 		}
-		if k == "any" {
-			g.HasAny = true
+		if k == "any" || k == "raw" {
+			g.HasAny = true // both may hold objects whose member order comes from a Go map
 		}
 		return n
 	}
@@ -334,6 +358,13 @@ func (g *GenT) genStruct(r *rand.Rand, n *TNode, depth int, budget *int, prefix 
 			continue
 		}
 		fld.Node = g.genNode(r, depth+1, budget, false, big, g.f.FormatTags)
+		// consecutive fields of the SAME type (sibling objects at one depth that draw names from one pool)
+		if i > 0 && r.IntN(8) == 0 {
+			if prev := n.Fields[len(n.Fields)-1]; !prev.Embedded && !prev.Ignored && prev.Node.Kind != "duration" && prev.Node.Kind != "time" {
+				fld.Node = cloneForSibling(prev.Node)
+				g.feats["shape:sibling-fields-same-type"] = true
+			}
+		}
 		if r.IntN(40) == 0 {
 			fld.Ignored = true
 			g.Lossy = true
@@ -385,8 +416,10 @@ func (g *GenT) genStruct(r *rand.Rand, n *TNode, depth int, budget *int, prefix 
 		}
 		used[fld.JSONName] = true
 		base := fld.Node // the node a `string`/`format` tag finally applies to (forwarded through pointers)
+		ptrDepth := 0
 		for base.Kind == "ptr" {
 			base = base.Elem
+			ptrDepth++
 		}
 		if r.IntN(12) == 0 {
 			fld.Case = []string{"ignore", "strict"}[r.IntN(2)]
@@ -454,6 +487,9 @@ func (g *GenT) genStruct(r *rand.Rand, n *TNode, depth int, budget *int, prefix 
 		case "unix", "unixmilli", "unixmicro", "unixnano", "sec", "milli", "micro", "nano":
 			stringOK = true
 		}
+		if g.f.NoStringOnNestedPtr && ptrDepth > 1 {
+			stringOK = false
+		}
 		if stringOK && r.IntN(4) == 0 || g.f.LegacyString && r.IntN(10) == 0 {
 			fld.String = true
 			opts = append(opts, "string")
@@ -483,6 +519,23 @@ func (g *GenT) genStruct(r *rand.Rand, n *TNode, depth int, budget *int, prefix 
 		sfs = append(sfs, st)
 		n.Fields = append(n.Fields, fld)
 	}
+	// one `embed` fallback per JSON object: only on a struct that is not itself hoisted into a parent object
+	if prefix == "" && !used["\x00fallback"] && r.IntN(8) == 0 {
+		used["\x00fallback"] = true
+		fld := &TField{GoName: "Fallback", Fallback: true, Tag: `json:",embed"`}
+		if r.IntN(3) == 0 {
+			fld.Node = &TNode{Kind: "raw", T: basicTypes["raw"], RawObject: true, KeyPrefix: "k:"}
+			g.feats["tag:embed-fallback-raw"] = true
+		} else {
+			elem := g.genLeaf(r, g.f.BareDuration)
+			fld.Node = &TNode{Kind: "map", Key: &TNode{Kind: "string", T: basicTypes["string"]}, Elem: elem, KeyPrefix: "k:"}
+			fld.Node.T = reflect.MapOf(fld.Node.Key.T, elem.T)
+			g.feats["tag:embed-fallback-map"] = true
+		}
+		g.HasMap = true
+		sfs = append(sfs, reflect.StructField{Name: fld.GoName, Type: fld.Node.T, Tag: reflect.StructTag(fld.Tag)})
+		n.Fields = append(n.Fields, fld)
+	}
 	n.T = reflect.StructOf(sfs)
 	switch {
 	case nf > 128:
@@ -496,6 +549,194 @@ func (g *GenT) genStruct(r *rand.Rand, n *TNode, depth int, budget *int, prefix 
 	default:
 		g.feats["fields:0"] = true
 	}
+}
+
+// cloneForSibling copies the pointer chain of n (whose base carries the flags set by the previous field's
+// tag) and shares everything below it, so that a second field can have the same Go type with its own tag.
+func cloneForSibling(n *TNode) *TNode {
+	c := *n
+	c.Format, c.Stringified, c.LegacyQuoted = "", false, false
+	if n.Kind == "ptr" {
+		c.Elem = cloneForSibling(n.Elem)
+	}
+	return &c
+}
+
+// ---------------------------------------------------------------- object-name plans
+
+// namePool is the fixed set of member names that the objects of one Go map type (within one generated type) draw from.
+type namePool struct {
+	plan string          // "none" | "long" (few names, about 1 KiB in total) | "many" (65..140 short names)
+	keys []reflect.Value // typed keys (map key type); for raw/any pools: strings
+}
+
+func (g *GenT) pool(r *rand.Rand, id, keyKind string, keyT reflect.Type, prefix string) *namePool {
+	if p, ok := g.pools[id]; ok {
+		return p
+	}
+	p := &namePool{plan: "none"}
+	g.pools[id] = p
+	if !g.f.MultiEntryMaps {
+		return p
+	}
+	switch x := r.IntN(10); {
+	case x < 5:
+		return p
+	case x < 8:
+		p.plan = "long"
+	default:
+		p.plan = "many"
+	}
+	mk := func(f func(v reflect.Value)) {
+		v := reflect.New(keyT).Elem()
+		f(v)
+		p.keys = append(p.keys, v)
+	}
+	bits := 64
+	switch keyKind {
+	case "int8", "uint8":
+		bits = 8
+	case "int16", "uint16":
+		bits = 16
+	case "int32", "uint32", "float32":
+		bits = 32
+	}
+	// "long" needs names of >= 16 bytes to cross 1 KiB with at most 64 of them: strings, 64-bit integers, float64
+	if p.plan == "long" && bits < 64 {
+		p.plan = "many"
+	}
+	total := 1024 - 60 + r.IntN(260) // straddles the 1024-byte switch of the namespace
+	nMany := 65 + r.IntN(76)
+	switch {
+	case keyKind == "string":
+		fillc := []string{"x", "x", "é", "<", "\t", "0"}[r.IntN(6)]
+		if p.plan == "long" {
+			n := 3 + r.IntN(38)
+			for i := 0; i < n; i++ {
+				name := prefix + string(rune('a'+i%26)) + strconv.Itoa(i)
+				for len(name) < total/n+1 {
+					name += fillc
+				}
+				mk(func(v reflect.Value) { v.SetString(name) })
+			}
+		} else {
+			for i := 0; i < nMany; i++ {
+				name := prefix + "n" + strconv.Itoa(i)
+				mk(func(v reflect.Value) { v.SetString(name) })
+			}
+		}
+	case keyKind == "float64":
+		if p.plan == "long" {
+			f := (1 + r.Float64()) * math.Pow(10, float64(r.IntN(500)-250))
+			if r.IntN(2) == 0 {
+				f = -f
+			}
+			n := total/len(strconv.FormatFloat(f, 'g', -1, 64)) + 1
+			if n > 64 {
+				n = 64
+			}
+			for i := 0; i < n; i++ {
+				x := f
+				mk(func(v reflect.Value) { v.SetFloat(x) })
+				f = math.Nextafter(f, f*2)
+			}
+		} else {
+			for i := 0; i < nMany; i++ {
+				x := float64(i-20) * 0.5
+				mk(func(v reflect.Value) { v.SetFloat(x) })
+			}
+		}
+	case keyKind == "float32":
+		for i := 0; i < nMany; i++ {
+			x := float64(float32(i-20) * 0.25)
+			mk(func(v reflect.Value) { v.SetFloat(x) })
+		}
+	case keyKind[0] == 'i': // signed
+		if p.plan == "long" {
+			n := min(total/20+1, 64)
+			for i := 0; i < n; i++ {
+				x := math.MinInt64 + int64(i)*int64(1+r.IntN(1000))
+				mk(func(v reflect.Value) { v.SetInt(x) })
+			}
+		} else {
+			base := int64(-70)
+			if bits > 8 && r.IntN(2) == 0 {
+				base = (int64(1)<<(bits-1) - 1) - int64(nMany) // up to the maximum of the kind
+			}
+			for i := 0; i < nMany; i++ {
+				x := base + int64(i)
+				mk(func(v reflect.Value) { v.SetInt(x) })
+			}
+		}
+	default: // unsigned
+		if p.plan == "long" {
+			n := min(total/20+1, 64)
+			for i := 0; i < n; i++ {
+				x := uint64(math.MaxUint64) - uint64(i)*uint64(1+r.IntN(1000))
+				mk(func(v reflect.Value) { v.SetUint(x) })
+			}
+		} else {
+			base := uint64(0)
+			if bits > 8 && r.IntN(2) == 0 {
+				base = (uint64(1)<<(bits-1))*2 - 1 - uint64(nMany)
+			}
+			for i := 0; i < nMany; i++ {
+				x := base + uint64(i)
+				mk(func(v reflect.Value) { v.SetUint(x) })
+			}
+		}
+	}
+	g.feats["names:"+p.plan+":"+keyKind] = true
+	return p
+}
+
+// pick returns the keys one object takes from its pool: all of them, a few of them, or nil (= use fresh random keys).
+func (p *namePool) pick(r *rand.Rand) []reflect.Value {
+	if p.plan == "none" || len(p.keys) == 0 {
+		return nil
+	}
+	switch r.IntN(5) {
+	case 0, 1:
+		return p.keys
+	case 2, 3:
+		k := 1 + r.IntN(3)
+		out := make([]reflect.Value, 0, k)
+		for i := 0; i < k; i++ {
+			out = append(out, p.keys[r.IntN(len(p.keys))])
+		}
+		return out
+	}
+	return nil
+}
+
+// pooledAny builds canonical untyped objects whose names come from the pool `id`: one object, or sibling objects in an array.
+func (g *GenT) pooledAny(r *rand.Rand, id, prefix string, objectOnly bool) any {
+	p := g.pool(r, id, "string", basicTypes["string"], prefix)
+	obj := func() map[string]any {
+		m := map[string]any{}
+		keys := p.pick(r)
+		if keys == nil {
+			for i := r.IntN(3); i > 0; i-- {
+				m[prefix+ValidString(r)] = genAnyN(r, 4, 1)
+			}
+			if !g.f.MultiEntryMaps && len(m) > 1 {
+				for k := range m {
+					if len(m) > 1 {
+						delete(m, k)
+					}
+				}
+			}
+			return m
+		}
+		for i, k := range keys {
+			m[k.String()] = float64(i)
+		}
+		return m
+	}
+	if objectOnly || r.IntN(2) == 0 {
+		return obj()
+	}
+	return []any{obj(), obj(), obj()}
 }
 
 func jsonNeedsEscape(s string) bool {
@@ -807,14 +1048,26 @@ func (g *GenT) fill(r *rand.Rand, n *TNode, v reflect.Value, depth int) {
 		case 1:
 			v.Set(reflect.MakeMap(n.T))
 		default:
+			m := reflect.MakeMap(n.T)
+			if keys := g.pool(r, n.T.String()+n.KeyPrefix, n.Key.Kind, n.Key.T, n.KeyPrefix).pick(r); keys != nil {
+				for _, k := range keys {
+					e := reflect.New(n.Elem.T).Elem()
+					g.fill(r, n.Elem, e, max(depth+1, 3)) // many members: keep each one small
+					m.SetMapIndex(k, e)
+				}
+				v.Set(m)
+				return
+			}
 			l := 1
 			if g.f.MultiEntryMaps && r.IntN(2) == 0 {
 				l = 2 + r.IntN(3)
 			}
-			m := reflect.MakeMap(n.T)
 			for i := 0; i < l; i++ {
 				k := reflect.New(n.Key.T).Elem()
 				g.fill(r, n.Key, k, depth+1)
+				if n.KeyPrefix != "" {
+					k.SetString(n.KeyPrefix + k.String())
+				}
 				e := reflect.New(n.Elem.T).Elem()
 				g.fill(r, n.Elem, e, depth+1)
 				m.SetMapIndex(k, e)
@@ -843,9 +1096,36 @@ func (g *GenT) fill(r *rand.Rand, n *TNode, v reflect.Value, depth int) {
 		if g.f.MultiEntryMaps {
 			me = 3
 		}
-		if x := genAnyN(r, depth, me); x != nil {
+		x := genAnyN(r, depth, me)
+		if g.f.MultiEntryMaps && r.IntN(6) == 0 {
+			x = g.pooledAny(r, "any", "", false)
+		}
+		if x != nil {
 			v.Set(reflect.ValueOf(x))
 		}
+	case "raw":
+		// a jsontext.Value holding a valid compact JSON text (rendered with default options from a canonical untyped value)
+		if r.IntN(6) == 0 {
+			return // nil: marshals as null (as an embed fallback: contributes nothing)
+		}
+		me := 1
+		if g.f.MultiEntryMaps {
+			me = 3
+		}
+		var x any
+		switch {
+		case n.RawObject:
+			x = g.pooledAny(r, "raw"+n.KeyPrefix, n.KeyPrefix, true)
+		case r.IntN(3) == 0:
+			x = g.pooledAny(r, "raw", "", false)
+		default:
+			x = genAnyN(r, depth, me)
+		}
+		b, err := json.Marshal(x, json.Deterministic(true))
+		if err != nil {
+			fail("generator: cannot render a raw value: %v", err)
+		}
+		v.SetBytes(b)
 	default:
 		fail("generator: unknown kind %q", n.Kind)
 	}
@@ -902,6 +1182,9 @@ func genAnyN(r *rand.Rand, depth int, maxEntries int) any {
 // sub-second digits, the date, the time of day or the zone).  The location NAME and pointer are never
 // compared (zone abbreviations do not survive), nor is the monotonic reading (generated values have none).
 //
+// jsontext.Value: compared by RFC 8785 canonical text (escaping/whitespace/member order are not part of the value),
+// empty == null (== {} for an embed fallback).
+//
 // `any`: dynamic types must agree and contents are compared recursively; under StringifiedAny a float64
 // is expected to come back as the Go string of its JSON number (StringifyNumbers quotes numbers and a
 // JSON string decodes into `any` as a string).
@@ -921,8 +1204,26 @@ func printsNull(n *TNode, v reflect.Value, m EqMode) bool {
 		return v.IsNil() && (m.NilAsNull || n.Format == "emitnull") && n.Format != "emitempty"
 	case "any":
 		return v.IsNil()
+	case "raw":
+		return v.Len() == 0 || string(v.Bytes()) == "null"
 	}
 	return false
+}
+
+// canonRaw is the meaning of a jsontext.Value for comparison: RFC 8785 canonical text (escaping, whitespace and
+// member order are not part of the value); an empty Value is null (as an embed fallback: the empty object).
+func canonRaw(n *TNode, b []byte) string {
+	if len(b) == 0 || string(b) == "null" {
+		if n.RawObject {
+			return "{}"
+		}
+		return "null"
+	}
+	v := jsontext.Value(bytes.Clone(b))
+	if err := v.Canonicalize(); err != nil {
+		return string(b)
+	}
+	return string(v)
 }
 
 func eqNode(n *TNode, a, b reflect.Value, m EqMode, path string) string {
@@ -1037,6 +1338,10 @@ func eqNode(n *TNode, a, b reflect.Value, m EqMode, path string) string {
 		}
 	case "any":
 		return eqAny(a.Interface(), b.Interface(), m, path)
+	case "raw":
+		if canonRaw(n, a.Bytes()) != canonRaw(n, b.Bytes()) {
+			return path
+		}
 	}
 	return ""
 }
